@@ -7,7 +7,8 @@ from vcheck import Job
 
 RULE = ("cell = (configuration n,k,l,Bgbit,t,basebit ; deletion order ; tool) for API lifecycles (parameters -> keys -> key "
         "generation -> encryption -> all 14 gates + coefficient-domain bootstraps -> export/import of every object on both "
-        "transports -> evaluation with the imported keys -> deletion in one of six orders), (object kind) for the IO registry "
+        "transports -> evaluation with the imported keys -> deletion in one of six orders), (object kind) for the IO registry, "
+        "(type) for the sweep over all allocator/constructor/destructor families (single and array, 17 types x 5 pairings) "
         "pass, and thread create/exit histories. Oracles: AddressSanitizer + UBSan (minus by-design wrapping) + LeakSanitizer on "
         "the C/C++ code, valgrind memcheck on the valgrind flavor (hand-written assembly), both with leak checking at exit; a "
         "report is keyed by its kind and the first library frame. Blocks still reachable from the library's parameter garbage "
@@ -51,6 +52,10 @@ def run(tier, seed, t0):
         for i, (n, k) in enumerate([(3, 1), (7, 2), (9, 1)]):
             jobs.append(life("vg", ["spqlios-fma", "nayuki-avx", "spqlios-avx"][i], n, k, 2, 10, 2, 1, i, seed, tool="memcheck", heavyio=0))
         thread_bes = ["spqlios-fma", "nayuki-portable", "fftw"]
+    for be in (vbuild.BACKENDS if thorough else ["spqlios-fma", "nayuki-portable", "fftw"]):
+        jobs.append(Job("asan-allocators-%s" % be, "drv_c16", "asan", be, ["--mode", "allocators", "--reps", 6 if thorough else 2, "--seed", seed], timeout=3600))
+    jobs.append(Job("memcheck-allocators", "drv_c16", "vg", "spqlios-avx", ["--mode", "allocators", "--reps", 1, "--seed", seed], tool="memcheck", timeout=7200))
+    jobs.append(Job("asand-allocators", "drv_c16", "asand", "nayuki-avx", ["--mode", "allocators", "--reps", 1, "--seed", seed], timeout=7200))
     jobs.append(Job("asan-iokinds", "drv_c16", "asan", "spqlios-fma", ["--mode", "iokinds", "--reps", 12 if thorough else 4, "--seed", seed], timeout=3600))
     jobs.append(Job("memcheck-iokinds", "drv_c16", "vg", "nayuki-avx", ["--mode", "iokinds", "--reps", 3 if thorough else 1, "--seed", seed], tool="memcheck", timeout=7200))
     for be in thread_bes:
